@@ -108,7 +108,8 @@ class _MetaPyTree(type):
             # whatever dynamic context we're currently in.
             from ._typeguard import typechecked
 
-            @typechecked
+            # `always=True`: `isinstance(x, PyTree[...])` means the same under `python -O`.
+            @typechecked(always=True)
             def accepts_leaftype(x: cls.leaftype):
                 pass
 
